@@ -1369,7 +1369,7 @@ class RecordTensor(ShapedTensor):
     def value(self, value: torch.Tensor | nn.Parameter | None) -> None:
         _ = ShapedTensor.value.fset(self, value)  # type: ignore
         if self._ignore(self.__data):
-            setattr(self.__owner(), f"_{self.__name}_pointer", 0)
+            setattr(self.__owner(), self.__attributes.pointer, 0)
 
     @value.deleter
     def value(self) -> None:
